@@ -11,6 +11,7 @@ PLAN = {
     "class_floors": {"probe:parse": 0.08, "probe:print": 0.06, "probe:validate": 0.04, "probe:analyse": 0.08, "probe:generate": 0.03, "probe:resolve": 0.03, "probe:flatten": 0.04,
                      "probe:annotate": 0.015, "instance:reused-after-use": 0.3, "x:print>parse": 0.02, "x:parse>parse": 0.05, "x:analyse>analyse": 0.04, "x:validate>validate": 0.02,
                      "x:resolve>flatten": 0.01, "x:analyse>generate": 0.03, "probe-has-issues": 0.1, "input:doc:garbage": 0.01, "input:doc:almost valid": 0.01, "input:model:broken": 0.05,
+                     "analyser-reuse:same-units-name-other-meaning": 0.04, "analyser-reuse:redefined-after-original": 0.015, "analyser-reuse:original-after-redefined": 0.015,
                      "library-files:with-parse-error": 0.03, "library-files:clean": 0.03, "flatten:no-imports": 0.03, "input-has-unlinked-units": 0.03, "input-has-unlinked-units:flatten": 0.008, "result-mutated-then-input-compared": 0.1,
                      "am-type:invalid": 0.03, "am-type:algebraic": 0.03, "flatten:ok": 0.03, "import-forest": 0.2},
 }
